@@ -2,7 +2,7 @@
    [part_all p] = every message the partition stores (log files then buffer, segment by segment).
    FULL statement (history level, includes the cursor after restart/retention; see DESIGN.md, proved
    in the refinement development when present): *)
-From IggyV Require Import Base.Tactics Base.ListX Model.Part Model.PartSpec Proofs.PartBasics Proofs.PartHistory Proofs.PartCounts Proofs.CacheHistory Proofs.OffsetsHistory Proofs.ReadExact Proofs.ReadPart Proofs.ReadHistory Proofs.ExpiryBasics Proofs.ExpiryHistory.
+From IggyV Require Import Base.Tactics Base.ListX Model.Part Model.PartSpec Proofs.PartBasics Proofs.PartHistory Proofs.PartCounts Proofs.CacheHistory Proofs.OffsetsHistory Proofs.ReadExact Proofs.ReadPart Proofs.ReadHistory Proofs.ExpiryBasics Proofs.ExpiryHistory Proofs.DedupHistory Proofs.Refine.
 Open Scope N_scope.
 
 Definition C01_full : Prop :=
@@ -79,6 +79,14 @@ Proof.
   split; [apply (j_contig _ HJ) | split; [apply (contig_nodup _ _ (j_contig _ HJ)) | apply (j_cursor _ HJ)]].
 Qed.
 
+(* PROVED - REFINEMENT (Proofs/Refine.v): the specification monitor accepts EVERY run of the model, i.e. for every operation
+   list every accepted send extends the abstract log by exactly the kept messages numbered from its length, refusals change nothing, the reported current offset is the last position of the abstract log after every operation (also after restarts, purges and retention).  This is C01_full under the guards the real code itself enforces or the model needs: segment size > 0, poll counts >= 1
+   (System::poll_messages refuses count 0 before the partition is reached), offsets and log files below 2^32 (32-bit index
+   fields), send timestamps non-zero and never going backwards; by-timestamp polls are the one operation kind left out. *)
+Theorem C01_refinement : forall ops c t0, 0 < c_seg c -> times_ok 0 ops -> Forall poll_ok ops ->
+  Forall bounds_ok (prun_states (c, part_new c t0) ops) -> model_check c t0 ops = 0.
+Proof. exact model_refines_spec. Qed.
+
 Print Assumptions C01_append.
 Print Assumptions C01_flush.
 Print Assumptions C01_save.
@@ -88,3 +96,4 @@ Print Assumptions C01_purge.
 Print Assumptions C01_history_partial.
 Print Assumptions C01_history_nonvacuous.
 Print Assumptions C01_history_expiry_partial.
+Print Assumptions C01_refinement.
